@@ -30,6 +30,48 @@ Orfs == UNION {AllOrfs(TxOf(C.txs[k].tx), CaseVars(C.txs[k])) : k \in 1..Len(C.t
 ExtraExplained(q) == \E p \in Orfs : RelaxedFragment(C.cfg, p, q)
 MissingExplained(q) == \E p \in Orfs : SensitiveFragment(C.cfg, p, q)
 
+(***************************************************************************)
+(* Recorded finding "cleavage site borrowed from a sibling form": an         *)
+(* alternative-splicing insertion / substitution with nested variants is a   *)
+(* sub-graph whose branches share node boundaries; a cleavage site that      *)
+(* exists only in the branch carrying a nested variant also cuts the branch  *)
+(* without it (and vice versa).  q is such a fragment when, for a haplotype  *)
+(* H and the haplotype H2 that differs from H only in the nested variants of *)
+(* one record, q = p(a..b] with a a boundary of p = ORF(H), b a site of      *)
+(* p2 = ORF(H2) that is not a site of p, and p, p2 agree before residue b.   *)
+(***************************************************************************)
+(* all <<p, B, b>>: p an ORF of a haplotype, B its boundaries, b a "phantom" site borrowed from a sibling *)
+SibTriples ==
+  UNION {
+    LET tr == C.txs[k]  tx == TxOf(tr.tx)  VV == CaseVars(tr)
+        starts(s) == IF tx.coding THEN {tx.orfStart} ELSE AtgStarts(s)
+    IN UNION { UNION { UNION {
+         LET H2 == (H \ {x}) \cup {x2}
+             s1 == Apply(tx.seq, H)  s2 == Apply(tx.seq, H2)
+         IN UNION {
+              LET p == OrfOf(s1, st, IF tx.coding THEN ShiftedSecs(tx, H) ELSE {}).pep
+                  p2 == OrfOf(s2, st, IF tx.coding THEN ShiftedSecs(tx, H2) ELSE {}).pep
+                  B == Bounds(C.cfg.rule, C.cfg.exc, p)
+                  B2 == Bounds(C.cfg.rule, C.cfg.exc, p2)
+              IN {<<p, B, b>> : b \in {y \in (B2 \ B) \cap (1..Len(p)) : SubSeq(p, 1, y - 1) = SubSeq(p2, 1, y - 1)}}
+              : st \in starts(s1) \cap starts(s2)}
+         : x2 \in {y \in VV \ {x} : y.id = x.id}}
+       : x \in H}
+     : H \in HaplotypesLoose(UsableVars(tx, VV), StartIdx(tx), MaxAdj(C.cfg))}
+    : k \in {j \in 1..Len(C.txs) : \E a \in ToSetP(C.txs[j].as) : Len(a.nested) > 0}}
+Spells(p, a, c, q) == q = SubSeq(p, a + 1, c) \/ (a = 0 /\ Len(p) > 0 /\ p[1] = "M" /\ q = SubSeq(p, 2, c))
+(* an extra peptide that ends at a phantom site                                               *)
+SiblingFragment(T, q) ==
+  \E t \in T : \E a \in {y \in t[2] : y < t[3]} :
+     Cardinality({y \in t[2] : a < y /\ y < t[3]}) <= C.cfg.misc /\ Spells(t[1], a, t[3], q)
+(* an extra peptide that starts at a phantom site                                             *)
+SiblingFragmentL(T, q) ==
+  \E t \in T : \E c \in {y \in t[2] : y > t[3]} :
+     Cardinality({y \in t[2] : t[3] < y /\ y < c}) <= C.cfg.misc /\ q = SubSeq(t[1], t[3] + 1, c)
+(* a missing peptide that spans a phantom site (the phantom site uses up its miscleavage allowance) *)
+SiblingMissing(T, q) ==
+  \E t \in T : \E a \in {y \in t[2] : y < t[3]} : \E c \in {y \in t[2] : y > t[3]} : Spells(t[1], a, c, q)
+
 RefsOk == \A k \in 1..Len(C.txs) : \A j \in 1..Len(C.txs[k].vars) :
              RefMatches(C.txs[k].tx.seq, C.txs[k].vars[j])
 
@@ -50,6 +92,8 @@ Verdict ==
       missing == cpl \ obs  extra == obs \ snd IN
   IF ~RefsOk \/ ~AsOk THEN PrintT(<<"V", i, "badcase">>)
   ELSE IF missing = {} /\ extra = {} THEN PrintT(<<"V", i, "ok", Cardinality(cpl)>>)
-  ELSE LET ctx == (\A q \in missing : MissingExplained(q)) /\ (\A q \in extra : ExtraExplained(q)) IN
-       PrintT(<<"V", i, IF ctx THEN "context" ELSE "diff", "missing", missing, "extra", extra>>)
+  ELSE LET ctx == (\A q \in missing : MissingExplained(q)) /\ (\A q \in extra : ExtraExplained(q))
+           T == IF missing \cup extra = {} THEN {} ELSE SibTriples
+           sib == T # {} /\ (\A q \in extra : SiblingFragment(T, q) \/ SiblingFragmentL(T, q)) /\ (\A q \in missing : SiblingMissing(T, q)) IN
+       PrintT(<<"V", i, IF sib THEN "sibling" ELSE IF ctx THEN "context" ELSE "diff", "missing", missing, "extra", extra>>)
 =============================================================================
